@@ -555,8 +555,9 @@ class World:
 
     SETTABLE = {"data": ["CKA_APPLICATION", "CKA_VALUE", "CKA_OBJECT_ID"], "cert": ["CKA_ID", "CKA_ISSUER", "CKA_SERIAL_NUMBER"],
                 "public": ["CKA_ID", "CKA_SUBJECT", "CKA_ENCRYPT", "CKA_VERIFY", "CKA_WRAP", "CKA_DERIVE", "CKA_START_DATE"],
-                "private": ["CKA_ID", "CKA_SUBJECT", "CKA_DECRYPT", "CKA_SIGN", "CKA_UNWRAP", "CKA_DERIVE", "CKA_END_DATE"],
-                "secret": ["CKA_ID", "CKA_ENCRYPT", "CKA_DECRYPT", "CKA_SIGN", "CKA_VERIFY", "CKA_WRAP", "CKA_UNWRAP", "CKA_DERIVE"],
+                "private": ["CKA_ID", "CKA_SUBJECT", "CKA_DECRYPT", "CKA_SIGN", "CKA_UNWRAP", "CKA_DERIVE", "CKA_END_DATE", "CKA_START_DATE", "CKA_WRAP_WITH_TRUSTED"],
+                "secret": ["CKA_ID", "CKA_ENCRYPT", "CKA_DECRYPT", "CKA_SIGN", "CKA_VERIFY", "CKA_WRAP", "CKA_UNWRAP", "CKA_DERIVE", "CKA_START_DATE", "CKA_END_DATE",
+                           "CKA_WRAP_WITH_TRUSTED"],
                 "domain": []}
 
     def op_set(self, si, oi, changes, bad):
@@ -1291,7 +1292,7 @@ class World:
 def extras_st(max_size=3):
     names = ["CKA_ID", "CKA_APPLICATION", "CKA_VALUE", "CKA_SUBJECT", "CKA_ISSUER", "CKA_SERIAL_NUMBER", "CKA_ENCRYPT",
              "CKA_DECRYPT", "CKA_SIGN", "CKA_VERIFY", "CKA_WRAP", "CKA_UNWRAP", "CKA_DERIVE", "CKA_SENSITIVE",
-             "CKA_EXTRACTABLE", "CKA_MODIFIABLE", "CKA_COPYABLE", "CKA_DESTROYABLE", "CKA_OBJECT_ID",
+             "CKA_EXTRACTABLE", "CKA_MODIFIABLE", "CKA_COPYABLE", "CKA_DESTROYABLE", "CKA_OBJECT_ID", "CKA_WRAP_WITH_TRUSTED",
              "CKA_ALLOWED_MECHANISMS", "CKA_WRAP_TEMPLATE", "CKA_UNWRAP_TEMPLATE", "CKA_START_DATE", "CKA_END_DATE"]
     rich = ["CKA_ALLOWED_MECHANISMS", "CKA_WRAP_TEMPLATE", "CKA_UNWRAP_TEMPLATE", "CKA_START_DATE", "CKA_END_DATE", "CKA_VALUE", "CKA_ID"]
     name = st.one_of(st.sampled_from(names), st.sampled_from(rich))     # the non-default attribute kinds get half the weight
